@@ -157,7 +157,7 @@ def stack(scale, deg, n):
 def figure_cases():
     out = []
     inv3 = [("", 0), ("6", 1), ("64", 2)]
-    inv4 = [("7", 0), ("65", 1), ("43", 2), ("2", 3)]
+    inv4 = [("7", 0), ("65", 1), ("43", 2), ("2", 3), ("42", 3), ("6/5", 1), ("4/3", 2)]      # the long and the slashed spellings too
     maj_tri = ["I", "ii", "iii", "IV", "V", "vi", "viio"]
     for d, f in enumerate(maj_tri):
         for suf, i in inv3:
